@@ -216,6 +216,7 @@ func NewDiskStorage(id string, path string, size int64, logger *apexlog.Logger, 
 		now:                   now,
 	}
 
+	s.startedAt = verifNow(s.startedAt)
 	go s.runSizeLimiter()
 	disablePersistentAtime := util.EnvBool("ATIME_DISABLE")
 	if !disablePersistentAtime {
@@ -314,6 +315,7 @@ type purgeableItems struct {
 func (s *storage) GetWriter(key Key, revalidate bool, closeNotifier *chan KeyInfo) StorageWriter {
 	fp := filepath.Join(s.path, key.FsName())
 	exists, err := pathExists(fp)
+	verifPoint("getwriter.stat", key)
 	if err != nil {
 		panic(fmt.Sprintf("Storage failed to assess path %v: %v", fp, err))
 	}
@@ -361,9 +363,11 @@ func (s *storage) Get(ctx context.Context, keys []Key) (*os.File, StorageMetadat
 			return nil, StorageMetadata{}, key, err
 		}
 
+		verifPoint("get.opened", key)
 		sm, err := getStorageMetadata(ctx, f, metadataXAttrName)
 		if err != nil {
 			s.logger.Errorf("Failed to get metadata from %v: %v\n", fp, err)
+			verifPoint("get.remove", key)
 			err = os.Remove(fp)
 			if err != nil {
 				s.logger.Errorf("Could not remove errored path %v: %v", fp, err)
@@ -375,6 +379,7 @@ func (s *storage) Get(ctx context.Context, keys []Key) (*os.File, StorageMetadat
 			if contentLength, err := strconv.Atoi(cl); err != nil && contentLength > 0 {
 				if int64(contentLength) != sm.FdSize {
 					s.logger.Error(fmt.Sprintf("Size on disk %v did not match HTTP header Content-Length %v. Deleting stored file.", sm.FdSize, contentLength))
+					verifPoint("get.remove", key)
 					err = os.Remove(fp)
 					if err != nil {
 						s.logger.Errorf("Could not remove errored path %v: %v", fp, err)
@@ -385,6 +390,7 @@ func (s *storage) Get(ctx context.Context, keys []Key) (*os.File, StorageMetadat
 			}
 		} else if sm.FdSize != sm.Size {
 			s.logger.Error(fmt.Sprintf("Size on disk %v did not match size written to client %v. Deleting stored file.", sm.FdSize, sm.Size))
+			verifPoint("get.remove", key)
 			err = os.Remove(fp)
 			if err != nil {
 				s.logger.Errorf("Could not remove errored path %v: %v", fp, err)
@@ -543,6 +549,7 @@ func (s *storage) runSizeLimiter() {
 	// Initialization done, go at it forever:
 
 	sleepTime := time.Second * 5
+	sleepTime = verifSleep(sleepTime)
 	lastRun := time.Now().Add(-sleepTime)
 	printChanLen := false
 	for {
@@ -550,6 +557,7 @@ func (s *storage) runSizeLimiter() {
 			break
 		}
 
+		verifPointS("limiter.loop", s.id)
 		io := <-s.itemsChan
 		switch io.op {
 		case opAdd:
@@ -885,10 +893,12 @@ func (s *storage) flushStorableAccessTimes() {
 		if err != nil {
 			s.logger.Errorf("Could not close old atime file: %v", err)
 		}
+		verifPointS("atime.before-remove", s.id)
 		err = os.Remove(p)
 		if err != nil {
 			s.logger.Errorf("Could not remove old atime file: %v", err)
 		}
+		verifPointS("atime.before-rename", s.id)
 		err = os.Rename(tp, p)
 		if err != nil {
 			s.logger.Errorf("Could not rename new atime file: %v", err)
@@ -956,8 +966,10 @@ func (sw *storageWriter) WriteHeader(s int, h http.Header) {
 
 	if sw.created == 0 {
 		sw.created = time.Now().Unix()
+		sw.created = verifNow(sw.created)
 	}
 	if sw.fd == nil {
+		verifPoint("wh.before-create", sw.key)
 		err := createAllSubdirs(filepath.Dir(sw.path))
 		if err != nil {
 			sw.log.Errorf("Could not create directory for path: %v", sw.path)
@@ -980,6 +992,7 @@ func (sw *storageWriter) WriteHeader(s int, h http.Header) {
 			}
 		}
 		sw.fd = fd
+		verifPoint("wh.created", sw.key)
 	}
 }
 
@@ -1016,8 +1029,10 @@ func (sw *storageWriter) Write(p []byte) (n int, err error) {
 		return 0, errors.New(fmt.Sprintf("Write called for errored %v", sw.key.FsName()))
 	}
 
+	verifPoint("write.before", sw.key)
 	nn, err := sw.fd.Write(p)
 	sw.writtenSize += int64(nn)
+	verifPoint("write.after", sw.key)
 	if rand.Intn(100) < 10 && sw.log != nil {
 		sw.log.Debugf("DEBUG: Wrote, size is: %v", sw.writtenSize)
 	}
@@ -1037,6 +1052,7 @@ func (sw *storageWriter) Close() error {
 		return nil
 	}
 
+	verifPoint("close.enter", sw.key)
 	var revalidatedMetadata *StorageMetadata
 	if sw.fd == nil {
 		if sw.wasRevalidated {
@@ -1066,6 +1082,7 @@ func (sw *storageWriter) Close() error {
 		return err
 	}
 	sizeOnDisk := fi.Size()
+	verifPoint("close.before-fdclose", sw.key)
 
 	err = sw.fd.Close()
 	if err != nil {
@@ -1161,18 +1178,22 @@ func (sw *storageWriter) Close() error {
 	}
 
 	esm := encodeStorageMetadata(metadata)
+	verifPoint("close.before-xattr", sw.key)
 	err = xattr.Set(sw.path, metadataXAttrName, esm)
 	if err != nil {
 		sw.Delete()
 		return err
 	}
+	verifPoint("close.after-xattr", sw.key)
 	now := time.Now()
 	err = os.Chtimes(sw.path, now, now)
 	if err != nil {
 		sw.log.Errorf("Could not set mtime for file %v: %v", sw.path, err)
 	}
 
+	verifPoint("close.after-chtimes", sw.key)
 	if len(sw.originalPath) > 0 {
+		verifPoint("close.before-rename", sw.key)
 		err = os.Rename(sw.path, sw.originalPath)
 		if err != nil {
 			sw.log.Errorf("Could not rename temporary file %v: %v", sw.fd.Name(), err)
@@ -1180,8 +1201,10 @@ func (sw *storageWriter) Close() error {
 			return err
 		}
 		sw.path = sw.originalPath
+		verifPoint("close.after-rename", sw.key)
 	}
 
+	verifPoint("close.before-finish", sw.key)
 	sw.finishAndNotify()
 	sw.closed = true
 
@@ -1202,6 +1225,7 @@ func (sw *storageWriter) notify() {
 		canUseStale = true
 	}
 	if sw.closeNotifier != nil {
+		verifPoint("notify.before-send", sw.key)
 		*sw.closeNotifier <- KeyInfo{Key: sw.key, CanUseStale: canUseStale}
 		if sw.oldKey != nil {
 			sw.log.Debugf("Had old Key: %v", *sw.oldKey)
@@ -1238,6 +1262,7 @@ func (sw *storageWriter) ChangeKey(k Key) error {
 			return err
 		}
 		if oldExists {
+			verifPoint("changekey.before-rename", sw.key)
 			err = os.Rename(sw.path, newPath)
 			if err != nil {
 				return err
@@ -1245,6 +1270,7 @@ func (sw *storageWriter) ChangeKey(k Key) error {
 		}
 	}
 
+	verifPoint("changekey.after-rename", sw.key)
 	sw.path = newPath
 	oldKey := &Key{host: sw.key.host, path: sw.key.path, opaqueOrigin: sw.key.opaqueOrigin,
 		storedHeaders: sw.key.storedHeaders.Clone(), originalHeaders: sw.key.originalHeaders.Clone()}
@@ -1273,6 +1299,7 @@ func (sw *storageWriter) Delete() error {
 		return nil
 	}
 
+	verifPoint("delete.before-remove", sw.key)
 	closeErr := sw.fd.Close()
 	err := os.Remove(sw.path)
 	if err != nil && !os.IsNotExist(err) {
@@ -1280,6 +1307,7 @@ func (sw *storageWriter) Delete() error {
 		return err
 	}
 
+	verifPoint("delete.after-remove", sw.key)
 	sw.deleted = true
 
 	return nil
